@@ -290,7 +290,58 @@ def enum_native_proto(tier, shard, nshards):
             yield {"platform": platform}
 
 
+def judge_switch(case) -> Verdict:
+    """A named port keeps its number when the object is moved to another platform, and the text it renders
+    there is accepted by that platform (names are spelling only)."""
+    from cisco_acl import Ace, Port
+    from cisco_acl.port_name import PortName
+
+    v = Verdict()
+    p1, p2, proto, name, version = case["from"], case["to"], case["proto"], case["name"], case.get("version", "0")
+    nr = PortName(proto, p1, version).names()[name]
+    v.nt()
+    v.label(f"{p1}->{p2}")
+    for warm in (False, True):
+        port = Port(f"eq {name}", platform=p1, protocol=proto, version=version)
+        if warm:
+            _ = port.line  # render once on the source platform before the switch
+        port.platform = p2
+        table2 = PortName(proto, p2, version).names()
+        tok = port.line.split()[-1]
+        if port.ports != [nr] or port.items != [nr]:
+            v.fail("switch:number-changed", {"case": case, "ports": port.ports[:4]})
+        if not tok.isdigit() and table2.get(tok) != nr:
+            v.fail("switch:renders-name-of-other-platform", {"case": case, "line": port.line, "rendered_before_switch": warm})
+        elif Port(port.line, platform=p2, protocol=proto, version=version).ports != [nr]:
+            v.fail("switch:rendered-text-rereads-differently", {"case": case, "line": port.line})
+    if p1 != "asa" and p2 != "asa":
+        ace = Ace(f"permit {proto} any eq {name} any eq {name}", platform=p1, version=version)
+        _ = ace.line
+        ace.platform = p2
+        back = Ace(ace.line, platform=p2, version=version)
+        if back.srcport.ports != [nr] or back.dstport.ports != [nr]:
+            v.fail("switch:Ace-meaning-changed", {"case": case, "line": ace.line})
+    return v
+
+
+def enum_switch(tier, shard, nshards):
+    from cisco_acl.port_name import PortName
+
+    idx = 0
+    for p1 in PLATFORMS:
+        for p2 in PLATFORMS:
+            if p1 == p2:
+                continue
+            for version in ("0", "15.2(02)SY"):
+                for proto in PROTOS:
+                    for name in sorted(PortName(proto, p1, version).names()):
+                        if idx % nshards == shard:
+                            yield {"from": p1, "to": p2, "proto": proto, "name": name, "version": version}
+                        idx += 1
+
+
 SUBS = [
+    Sub("switch", judge_switch, enum=enum_switch, quick=1, thorough=1, exhaustive=True, exhaustive_quick=True),
     Sub("names", judge_name, enum=enum_names, quick=1, thorough=1, exhaustive=True, exhaustive_quick=True),
     Sub("must", judge_must, enum=enum_must, quick=1, thorough=1, shards_quick=4, shards_thorough=4,
         exhaustive=True, exhaustive_quick=True),
